@@ -213,8 +213,14 @@ pub(crate) fn gen_augment(
                     quote!()
                 };
 
+                let augment = if override_required {
+                    quote!(augment_subcommands_for_update)
+                } else {
+                    quote!(augment_subcommands)
+                };
+
                 Some(quote! {
-                    let #app_var = <#subcmd_type as clap::Subcommand>::augment_subcommands( #app_var );
+                    let #app_var = <#subcmd_type as clap::Subcommand>::#augment( #app_var );
                     let #app_var = #app_var
                         #implicit_methods
                         #override_methods;
